@@ -28,6 +28,7 @@ type Case struct {
 	ExplicitTx bool        `json:"explicit_tx"`
 	HookSets   bool        `json:"hook_sets"`           // before-hooks of root users set Age (directly on create, via SetColumn on update)
 	HookWrites bool        `json:"hook_writes"`         // BeforeSave/BeforeDelete of root users write a marker row through their tx
+	PriorSkip  bool        `json:"prior_skiphooks,omitempty"` // the operation runs on a WithContext handle from which a Session{SkipHooks:true} was derived and abandoned before
 	HookCtx    bool        `json:"hook_ctx,omitempty"`  // with hook_writes: the hook writes through tx.WithContext(ctx) instead of tx itself
 	ErrClass   string      `json:"err_class,omitempty"` // the failing hook's error wraps this well-known error (simdrv.ClassError)
 	MaxSites   int         `json:"max_sites"`
@@ -84,6 +85,7 @@ func (Prop) Gen(r *core.Rand, tier string) interface{} {
 		c.ErrClass = r.Pick(append([]string{"notfound", "notfound"}, simdrv.Classes...))
 	}
 	c.HookCtx = c.HookWrites && r.Chance(40)
+	c.PriorSkip = r.Chance(12)
 	return c
 }
 
@@ -119,6 +121,7 @@ func (Prop) Shrink(ci interface{}) []interface{} {
 		func(v *Case) bool { x := v.HookWrites; v.HookWrites = false; return x },
 		func(v *Case) bool { x := v.ErrClass != ""; v.ErrClass = ""; return x },
 		func(v *Case) bool { x := v.HookCtx; v.HookCtx = false; return x },
+		func(v *Case) bool { x := v.PriorSkip; v.PriorSkip = false; return x },
 	} {
 		v := *c
 		if f(&v) {
@@ -191,6 +194,11 @@ func (p Prop) exec(c *Case, f *ops.Fault) (*execInfo, error) {
 	}
 	sr, err := ops.RunSingle(env.Options{PrepareStmt: c.Prepare}, f, action, func(e *env.Env) ops.Result {
 		db := e.DB
+		if c.PriorSkip {
+			h := db.WithContext(context.WithValue(context.Background(), hookCtxKey{}, "handle"))
+			_ = h.Session(&gorm.Session{SkipHooks: true}) // its option is its own
+			db = h
+		}
 		var tx *gorm.DB
 		if c.ExplicitTx {
 			tx = db.Begin()
